@@ -34,7 +34,7 @@ inductive Prim
   | other (name : String)             -- a shared-state access the extractor does not know
 deriving DecidableEq, Repr
 
-inductive Ans | yes | no | ok | err | normal | marked | nil | valL | valF | one | zero
+inductive Ans | yes | no | ok | err | normal | marked | expired | nil | valL | valF | one | zero
 deriving DecidableEq, Repr
 
 /-- semantics of the primitives on the shared state (POSIX / Redis single-command atomicity: trusted) -/
@@ -165,7 +165,7 @@ def impliesTaken : Prim → Ans → Bool
   | .setnxL, .zero => true
   | .get, .valL | .get, .valF => true
   | .dGet, .valL | .dGet, .valF => true
-  | .stat, .normal | .stat, .marked => true
+  | .stat, .normal | .stat, .marked | .stat, .expired => true
   | _, _ => false
 
 def freeing : Prim → Bool
